@@ -15,7 +15,7 @@ HARNESS = os.path.join(VERIF, "harness")
 WORK = os.path.join(VERIF, "work")
 EVID = os.path.join(VERIF, "evidence")
 ALLOWED_AXIOMS = {"propext", "Classical.choice", "Quot.sound"}
-FORBIDDEN = re.compile(r"sorry|admit|^axiom |native_decide|bv_decide|implemented_by|unsafe |maxHeartbeats 0", re.M)
+FORBIDDEN = re.compile(r"(?<![A-Za-z0-9_.])(?:sorry|admit|native_decide|bv_decide|implemented_by|unsafe\s|maxHeartbeats 0)|^axiom ", re.M)
 
 ENV = dict(os.environ)
 ENV["CARGO_NET_OFFLINE"] = "true"
